@@ -1,5 +1,6 @@
 import MockeryModel.Run.Pipeline
 import MockeryLemmas.Pipeline
+import MockeryLemmas.Plan
 /-!
 # C10 — Output files are written safely: no stray writes, no clobbering, all-or-nothing
 
@@ -117,5 +118,53 @@ example :
     let j2 : FileJob := ⟨"b", false, true, true, true, true, true, "B"⟩
     let r := run ⟨false, [j1, j2], false⟩ fs
     r.1 "a" = .file "A" ∧ r.1 "b" = .file "user" ∧ r.2 = false := by decide
+
+
+/-! ## which files are designated: from the selected mocks to output files (`Run/Plan.lean`) -/
+
+/-- **the designated output files**: when the selected mocks can be collected (no conflict), the output
+files of the run are exactly the distinct resolved paths `Clean(dir/filename)` of the mocks, each file
+holds exactly the mocks that resolve to it, in discovery order of first use, and all mocks of a file
+share its source package, `pkgname` and `template`. -/
+theorem output_files_are_the_resolved_paths (ms : List PlannedMock) (cs : List Collection) (h : group ms = .ok cs) :
+    (cs.map (·.path)).Nodup ∧
+    (∀ m ∈ ms, ∃ c ∈ cs, c.path = m.path ∧ m ∈ c.mocks) ∧
+    (∀ c ∈ cs, ∀ m ∈ c.mocks, m ∈ ms ∧ m.path = c.path ∧ m.pkgName = c.pkgName ∧ m.srcPkg = c.srcPkg ∧
+      m.template = c.template) := by
+  have inv := groupFrom_inv ms [] cs [] h ⟨by simp, by simp, by simp, by simp⟩
+  simp only [List.nil_append] at inv
+  refine ⟨inv.nodup, inv.complete, ?_⟩
+  intro c hc m hm
+  obtain ⟨hh, hs⟩ := inv.homog c hc
+  exact ⟨hs m hm, hh m hm⟩
+
+/-- **conflicts are errors, and only conflicts**: collecting fails exactly when two selected mocks resolve
+to the same output file but differ in source package, `pkgname` or `template` -/
+theorem conflict_is_error (ms : List PlannedMock) (e : PlanErr) (h : group ms = .error e) :
+    ∃ m1 ∈ ms, ∃ m2 ∈ ms, m1.path = m2.path ∧
+      (m1.pkgName ≠ m2.pkgName ∨ m1.srcPkg ≠ m2.srcPkg ∨ m1.template ≠ m2.template) := by
+  simpa using groupFrom_error ms [] [] e h ⟨by simp, by simp, by simp, by simp⟩
+
+theorem no_conflict_no_error (ms : List PlannedMock)
+    (hc : ∀ m1 ∈ ms, ∀ m2 ∈ ms, m1.path = m2.path →
+      m1.pkgName = m2.pkgName ∧ m1.srcPkg = m2.srcPkg ∧ m1.template = m2.template) :
+    ∃ cs, group ms = .ok cs := by
+  cases h : group ms with
+  | ok cs => exact ⟨cs, rfl⟩
+  | error e =>
+    obtain ⟨m1, h1, m2, h2, hp, hd⟩ := conflict_is_error ms e h
+    obtain ⟨a, b, c⟩ := hc m1 h1 m2 h2 hp
+    rcases hd with hd | hd | hd
+    · exact absurd a hd
+    · exact absurd b hd
+    · exact absurd c hd
+
+example :
+    let m1 : PlannedMock := ⟨"p", "A", 0, "/m/p/mocks_test.go", "p", "testify", "MockA"⟩
+    let m2 : PlannedMock := ⟨"p", "B", 0, "/m/p/mocks_test.go", "p", "testify", "MockB"⟩
+    let m3 : PlannedMock := ⟨"p", "B", 1, "/m/out/b.go", "out", "matryer", "StubB"⟩
+    (group [m1, m2, m3]).map (fun cs => cs.map (fun c => (c.path, c.mocks.map (·.structName)))) =
+      .ok [("/m/p/mocks_test.go", ["MockA", "MockB"]), ("/m/out/b.go", ["StubB"])] ∧
+    group [m1, { m2 with pkgName := "p_test" }] = .error .pkgName := ⟨rfl, rfl⟩
 
 end Mockery.C10
